@@ -284,6 +284,26 @@ def _is_default_keyword(expr, kwname):
     return False
 
 
+def _order_insensitive(loop):
+    """the loop body only unions values into set accumulators which it never reads"""
+    if not isinstance(loop, ast.For) or loop.orelse:
+        return False
+    acc, values = set(), []
+    for st in loop.body:
+        if isinstance(st, ast.AugAssign) and isinstance(st.op, ast.BitOr) and isinstance(st.target, ast.Name) \
+                and (isinstance(st.value, (ast.Set, ast.SetComp)) or (isinstance(st.value, ast.Call) and src(st.value.func) in ('set', 'frozenset'))):
+            acc.add(st.target.id)
+            values.append(st.value)
+        elif isinstance(st, ast.Expr) and isinstance(st.value, ast.Call) and isinstance(st.value.func, ast.Attribute) \
+                and st.value.func.attr == 'add' and isinstance(st.value.func.value, ast.Name):
+            acc.add(st.value.func.value.id)
+            values.extend(st.value.args)
+        else:
+            return False
+    reads = {x.id for v in values for x in ast.walk(v) if isinstance(x, ast.Name)}
+    return bool(acc) and not (reads & acc)
+
+
 def classify(ref_rec, cur_rec):
     """('equal'|'mutation'|'different', description)"""
     if {ref_rec[0], cur_rec[0]} == {'break', 'continue'}:
@@ -317,7 +337,14 @@ def classify(ref_rec, cur_rec):
         if v == 'different':
             # the other direction: the reference is one `dropped` mutation away from the current statement, i.e. a keyword
             # argument (with a non-default value), a conjunct or a disjunct was ADDED
-            v2, d2 = treecmp.compare(r, c, mutations=('keyword argument', 'conjunct', 'disjunct'))
+            v2, d2 = treecmp.compare(r, c, mutations=('keyword argument', 'conjunct', 'disjunct', 'call of'))
+            if v2 == 'mutation' and d2.startswith('call of'):
+                # a value-changing wrapper ADDED (np.unique(x), sorted(x), abs(x) for x); an added copy only protects
+                if 'copy' in d2 or 'dropped' not in d2:
+                    v2 = 'different'
+                else:
+                    v, d = 'mutation', d2.replace('dropped', 'added')
+                    v2 = 'handled'
             if v2 == 'mutation':
                 if d2.startswith('keyword argument'):
                     kwname = d2.split()[2]
@@ -325,6 +352,10 @@ def classify(ref_rec, cur_rec):
                         v, d = 'mutation', d2.replace('dropped', 'added')
                 else:
                     v, d = 'mutation', d2.replace('dropped from', 'added to')
+        if v == 'mutation' and ref_rec[0] == 'for' and d.startswith('call of') and any(w in d for w in ('reversed', 'sorted')) \
+                and _order_insensitive(ref_rec[2]) and _order_insensitive(cur_rec[2]):
+            # the iteration order of a loop that only accumulates into sets (|= set(...), .add) does not matter
+            v, d = 'equal', None
         if v == 'equal':
             continue
         if v == 'mutation':
